@@ -1,1 +1,2 @@
 import PysamlModel.Core.Proto
+import PysamlModel.Props.C08
